@@ -56,6 +56,9 @@ class Gen:
             if not (ba and ba["range"]) and rng.random() < 0.3:
                 v = -v
             return {"i": v}
+        if rng.random() < 0.15:
+            # an int (incl. 0) given for a float member: the constructor's _cast(float, .) converts it
+            return {"i": rng.choice([0, 0, 1, 7, -3, 250])}
         return {"f": rdyadic(rng)}
 
     def tree(self, c, depth, full=False):
